@@ -542,6 +542,8 @@ func (e *daemonEngine) stopBeacon(n *dNode, id string) {
 	if dd == nil {
 		return
 	}
+	n.bumpRoute()
+	defer n.bumpRoute()
 	_, err := dd.Shutdown(context.Background(), &drand.ShutdownRequest{Metadata: &drand.Metadata{BeaconID: id}})
 	e.rec.Ev("stop_beacon", n.addr, "%s err=%v", id, err)
 	if err == nil {
@@ -562,6 +564,8 @@ func (e *daemonEngine) loadBeacon(n *dNode, id string) {
 	if dd == nil {
 		return
 	}
+	n.bumpRoute()
+	defer n.bumpRoute()
 	_, err := dd.LoadBeacon(context.Background(), &drand.LoadBeaconRequest{Metadata: &drand.Metadata{BeaconID: id}})
 	e.rec.Ev("load_beacon", n.addr, "%s err=%v", id, err)
 	if err == nil {
@@ -595,14 +599,24 @@ func (e *daemonEngine) routeCheck(n *dNode, at int64) {
 		hashOpts = append(hashOpts, opt{hash: h, hid: id})
 	}
 	hashOpts = append(hashOpts, opt{hash: bytes.Repeat([]byte{0xab}, 32), bad: true}, opt{hash: []byte{1, 2, 3}, bad: true})
-	n.mu.Lock()
-	stopped := map[string]bool{}
-	for k, v := range n.stopped {
-		stopped[k] = v
+	// the set of running chains may change while requests are in flight: a verdict is only
+	// given when no stop/load began or ended between sending a request and reading its answer
+	snapshot := func() (int, map[string]bool) {
+		n.mu.Lock()
+		defer n.mu.Unlock()
+		st := map[string]bool{}
+		for k, v := range n.stopped {
+			st[k] = v
+		}
+		return n.routeVer, st
 	}
-	n.mu.Unlock()
 	for _, io := range idOpts {
 		for _, ho := range hashOpts {
+			ver, stopped := snapshot()
+			if ver%2 == 1 {
+				continue
+			}
+			stable := func() bool { v, _ := snapshot(); return v == ver }
 			md := &drand.Metadata{ChainHash: ho.hash}
 			if io.set {
 				md.BeaconID = io.id
@@ -634,19 +648,19 @@ func (e *daemonEngine) routeCheck(n *dNode, at int64) {
 			e.rec.Count("probe:route_requests", 1)
 			cl := e.client("route")
 			// PublicRand
-			if resp, err := cl.PublicRand(context.Background(), n.pairs["default"].Public, &drand.PublicRandRequest{Round: 0, Metadata: proto.Clone(md).(*drand.Metadata)}); err == nil {
+			if resp, err := cl.PublicRand(context.Background(), n.pairs["default"].Public, &drand.PublicRandRequest{Round: 0, Metadata: proto.Clone(md).(*drand.Metadata)}); err == nil && stable() {
 				e.routeVerify(n, "PublicRand", io.id, io.set, ho.hash, expect, func(cc *chainCtx) bool {
 					return resp.Round == 0 || cc.chain.CheckBeacon(resp.Round, prevFor(cc, resp.Round, resp.PreviousSignature), resp.Signature) == ""
 				})
 			}
 			// ChainInfo
-			if resp, err := cl.ChainInfo(context.Background(), n.pairs["default"].Public, &drand.ChainInfoRequest{Metadata: proto.Clone(md).(*drand.Metadata)}); err == nil {
+			if resp, err := cl.ChainInfo(context.Background(), n.pairs["default"].Public, &drand.ChainInfoRequest{Metadata: proto.Clone(md).(*drand.Metadata)}); err == nil && stable() {
 				e.routeVerify(n, "ChainInfo", io.id, io.set, ho.hash, expect, func(cc *chainCtx) bool {
 					return hex.EncodeToString(resp.Hash) == e.chainHashHex(cc.id)
 				})
 			}
 			// GetIdentity
-			if resp, err := cl.GetIdentity(context.Background(), n.pairs["default"].Public, &drand.IdentityRequest{Metadata: proto.Clone(md).(*drand.Metadata)}); err == nil {
+			if resp, err := cl.GetIdentity(context.Background(), n.pairs["default"].Public, &drand.IdentityRequest{Metadata: proto.Clone(md).(*drand.Metadata)}); err == nil && stable() {
 				e.routeVerify(n, "GetIdentity", io.id, io.set, ho.hash, expect, func(cc *chainCtx) bool {
 					kb, _ := n.pairs[cc.id].Public.Key.MarshalBinary()
 					return bytes.Equal(resp.Key, kb) && resp.SchemeName == cc.sch.Name
@@ -662,6 +676,10 @@ func (e *daemonEngine) routeCheck(n *dNode, at int64) {
 		return
 	}
 	for _, id := range ids {
+		ver, stopped := snapshot()
+		if ver%2 == 1 {
+			continue
+		}
 		rec := httptest.NewRecorder()
 		func() {
 			defer func() { _ = recover() }()
@@ -669,6 +687,9 @@ func (e *daemonEngine) routeCheck(n *dNode, at int64) {
 			defer cancel()
 			dd.VerifHTTP().ServeHTTP(rec, httptest.NewRequest("GET", "/"+e.chainHashHex(id)+"/info", nil).WithContext(ctx))
 		}()
+		if v, _ := snapshot(); v != ver {
+			continue
+		}
 		if rec.Code == 200 {
 			if stopped[id] {
 				e.rec.Violate("C19", "stopped-chain-still-served", "http", "node %s: GET /<hash of %s>/info answered after the chain was stopped", n.addr, id)
